@@ -5,20 +5,20 @@ import MTVerif.Model.Infer
 namespace MT
 
 section
-variable (sub : ClassId → ClassId → Bool)
+variable (sub : ClassId → ClassId → Bool) (ao : Bool)
 
 theorem conformsAny_iff (ts : List Ty) (v : Val) :
-    conformsAny sub ts v = true ↔ ∃ t ∈ ts, conforms sub t v = true := by
+    conformsAny sub ao ts v = true ↔ ∃ t ∈ ts, conforms sub ao t v = true := by
   induction ts with
   | nil => simp [conformsAny]
   | cons t ts ih => simp [conformsAny, ih]
 
 theorem conforms_union (ts : List Ty) (v : Val) :
-    conforms sub (.union ts) v = true ↔ ∃ t ∈ ts, conforms sub t v = true := by
-  rw [conforms]; exact conformsAny_iff sub ts v
+    conforms sub ao (.union ts) v = true ↔ ∃ t ∈ ts, conforms sub ao t v = true := by
+  rw [conforms]; exact conformsAny_iff sub ao ts v
 
 theorem conformsField_lookup (fs : List (String × Ty)) (s : String) (v : Val) :
-    conformsField sub fs s v = true ↔ ∃ t, lookupF s fs = some t ∧ conforms sub t v = true := by
+    conformsField sub ao fs s v = true ↔ ∃ t, lookupF s fs = some t ∧ conforms sub ao t v = true := by
   induction fs with
   | nil => simp [conformsField, lookupF]
   | cons kt fs ih =>
@@ -27,8 +27,8 @@ theorem conformsField_lookup (fs : List (String × Ty)) (s : String) (v : Val) :
     split <;> simp_all
 
 theorem conformsReq_iff (fs : List (String × Ty)) (kvs : List (Val × Val)) :
-    conformsReq sub fs kvs = true ↔
-      ∀ kt ∈ fs, ∃ kv ∈ kvs, kv.1 = Val.str kt.1 ∧ conforms sub kt.2 kv.2 = true := by
+    conformsReq sub ao fs kvs = true ↔
+      ∀ kt ∈ fs, ∃ kv ∈ kvs, kv.1 = Val.str kt.1 ∧ conforms sub ao kt.2 kv.2 = true := by
   induction fs with
   | nil => simp [conformsReq]
   | cons kt fs ih =>
